@@ -171,6 +171,9 @@ func (s *Server) livesimHandlerFunc(w http.ResponseWriter, r *http.Request) {
 			case errors.Is(err, errGone):
 				http.Error(w, "Gone", http.StatusGone)
 			default:
+				if r.Context().Err() != nil {
+					return // The client is gone. Nothing more to write
+				}
 				http.Error(w, "writeSegment", http.StatusInternalServerError)
 				return
 			}
